@@ -101,6 +101,13 @@ class FailureDetectionMonitor(Monitor):
             self.tentative[ev['id']] = (prec, prec['r_last'])
             prec['r_last'] = orec['counter']
             self.count('ticks_delivered')
+            if prec['state'] in ACTIVE and prec['inc'] is not None and prec['inc'] != src.inc and \
+                    prec.get('restart_seen') is None:
+                # first TICK of a new incarnation of a peer that is still in the episode of the previous one
+                prec['restart_seen'] = (orec['counter'], prec['episode'],
+                                        body['sequence_counter'], prec.get('last_counter'))
+                self.count('quick_restarts_seen')
+            prec['last_counter'] = body['sequence_counter']
         if kind == 'rpc_fail' and ev['src'] != 'user':
             w = self.run.world
             src = w.instances.get(ev['src'])
@@ -137,6 +144,22 @@ class FailureDetectionMonitor(Monitor):
             if identifier == inst.identifier:
                 continue
             before = ctx['before'].get(identifier)
+            seen = prec.get('restart_seen')
+            if seen is not None:
+                if prec['episode'] != seen[1] or prec['state'] not in ACTIVE:
+                    prec['restart_seen'] = None     # the episode of the previous incarnation is over
+                elif ctx['counter'] is not None and seen[0] is not None and ctx['counter'] - seen[0] >= 2:
+                    self.count('quick_restart_evaluations')
+                    mech = ''
+                    if seen[3] is not None and seen[2] >= seen[3]:
+                        # the restart is only detected through a TICK counter going backwards
+                        mech = ':first-tick-counter-not-lower-than-the-last-one-of-the-previous-incarnation'
+                    self.violate('C07/restarted-peer-not-invalidated' + mech,
+                                 f"{inst.nick}: peer {w.by_identifier.get(identifier)} restarted (its first TICK after "
+                                 f"the restart was delivered at local tick {seen[0]}) and is still {prec['state']} in "
+                                 f"the episode of its previous incarnation after the periodic check of local tick "
+                                 f"{ctx['counter']} (vt={vt(w)})", case=self.run.describe())
+                    prec['restart_seen'] = None
             if before in ACTIVE:
                 self.count('completeness_evaluations')
                 if ctx['late'].get(identifier):
